@@ -623,7 +623,7 @@ func c05Conc(kind, mode string, n, G, K int) (res string) {
 			my := make([]c05Rec, 0, K)
 			atomic.AddInt32(&ready, 1)
 			for spins := 0; atomic.LoadInt32(&ready) < int32(G); spins++ {
-				if spinYield || spins > 2000 { // never burn a CPU quota waiting for goroutines that cannot run
+				if spinYield || spins > 2000000 { // never burn a CPU quota waiting for goroutines that cannot run
 					runtime.Gosched()
 				}
 			}
